@@ -12,6 +12,7 @@ import (
 	"time"
 
 	"github.com/influxdata/influxdb/v2/models"
+	"github.com/influxdata/influxdb/v2/pkg/limiter"
 	"github.com/influxdata/influxdb/v2/tsdb"
 	"github.com/influxdata/influxdb/v2/tsdb/cursors"
 	_ "github.com/influxdata/influxdb/v2/tsdb/engine"
@@ -83,6 +84,11 @@ func (s *Shard) open() error {
 	}
 	if s.Opt.MaxIndexLogSize > 0 {
 		opt.Config.MaxIndexLogFileSize = tomlSize(uint64(s.Opt.MaxIndexLogSize))
+	}
+	if s.Opt.Background {
+		// what tsdb.Store sets up; without limiters the engine never starts a compaction
+		opt.CompactionLimiter = limiter.NewFixed(4)
+		opt.OptimizedCompactionLimiter = limiter.NewFixed(2)
 	}
 	if s.Opt.Tweak != nil {
 		s.Opt.Tweak(&opt)
